@@ -208,6 +208,7 @@ def miri_shard(spec):
     if rc is None:
         st.inconclusive += 1
         st.notes.append("miri shard timed out after %d s with %d results" % (spec["timeout"], len(results)))
+    st.count("miri_results", max(0, len(results) - 3))
     if "Undefined Behavior" in stderr or (rc not in (0, None)):
         n_done = max(0, len(results) - 3)
         culprit = spec["cases"][n_done] if n_done < len(spec["cases"]) else spec["cases"][-1]
@@ -271,10 +272,10 @@ def run(tier, seed):
     if tier == "thorough" and os.environ.get("VERIF_NO_MIRI") != "1":
         rng = random.Random(core.sub_seed(seed, PROP, "miri"))
         pool = [c for c in all_cases if c[1] in MAPPED and c[0] in ("mi", "mn")]
-        sample = rng.sample(pool, min(len(pool), 320)) + [("mi", st_, "".join(LATIN)) for st_ in MAPPED] + [("mn", st_, "".join(DIGITS)) for st_ in MAPPED] + \
+        sample = rng.sample(pool, min(len(pool), 150)) + [("mi", st_, "".join(LATIN)) for st_ in MAPPED] + [("mn", st_, "".join(DIGITS)) for st_ in MAPPED] + \
                  [("mi", st_, "".join(GREEK + VARIANT_SYMBOLS + DIGAMMA)) for st_ in MAPPED]
-        n_miri = 8
-        mr = core.run_shards(miri_shard, [{"cases": sample[i::n_miri], "timeout": 3000} for i in range(n_miri)], procs=n_miri)
+        n_miri = 6
+        mr = core.run_shards(miri_shard, [{"cases": sample[i::n_miri], "timeout": 4500} for i in range(n_miri)], procs=n_miri)
         extra["miri"] = {"flags": "-Zmiri-disable-isolation -Zmiri-tree-borrows", "processes": n_miri, "cases": len(sample),
                          "note": "Stacked Borrows is not used: it reports the aliasing discipline of the sxd-document dependency on the first XML parse"}
         results.extend(mr)
